@@ -6,17 +6,23 @@
 pub fn esh_reference(grad: &[f64], mom: &[f64], step: f64) -> (Vec<f64>, f64) {
     let n = grad.len();
     let gn = grad.iter().map(|g| g * g).sum::<f64>().sqrt();
-    let e: Vec<f64> = grad.iter().map(|g| g / gn).collect();
+    // sinh is odd and cosh even: a negative step is the positive step along -e
+    let sgn = if step < 0.0 { -1.0 } else { 1.0 };
+    let e: Vec<f64> = grad.iter().map(|g| sgn * g / gn).collect();
     let ue: f64 = mom.iter().zip(&e).map(|(p, e)| p * e).sum();
-    let d = step * gn / (n as f64 - 1.0);
-    let (sh, ch) = (d.sinh(), d.cosh());
+    let d = step.abs() * gn / (n as f64 - 1.0);
+    // everything scaled by exp(-d) so that large d does not overflow
+    let ed = (-d).exp();
+    let z = ed * ed;
+    let sh = 0.5 * (1.0 - z); // sinh d * exp(-d)
+    let ch = 0.5 * (1.0 + z); // cosh d * exp(-d)
     let denom = ch + ue * sh;
     let mut out: Vec<f64> = (0..n)
-        .map(|i| (mom[i] + e[i] * (sh + ue * (ch - 1.0))) / denom)
+        .map(|i| (mom[i] * ed + e[i] * (sh + ue * (ch - ed))) / denom)
         .collect();
     let nrm = out.iter().map(|x| x * x).sum::<f64>().sqrt();
     out.iter_mut().for_each(|x| *x /= nrm);
-    (out, (n as f64 - 1.0) * denom.ln())
+    (out, (n as f64 - 1.0) * (d + denom.ln()))
 }
 
 /// Nesterov dual averaging as published (Hoffman & Gelman 2014, with the log-step clamp and the
@@ -96,4 +102,162 @@ impl RefAdam {
     pub fn step(&self) -> f64 {
         self.log_step.exp()
     }
+}
+
+// ---------------------------------------------------------------------------------------------
+// dense linear algebra (row-major d x d), boring on purpose
+// ---------------------------------------------------------------------------------------------
+
+#[derive(Clone, Debug)]
+pub struct Dense {
+    pub d: usize,
+    pub a: Vec<f64>,
+}
+
+impl Dense {
+    pub fn identity(d: usize) -> Dense {
+        let mut a = vec![0.0; d * d];
+        for i in 0..d {
+            a[i * d + i] = 1.0;
+        }
+        Dense { d, a }
+    }
+    pub fn diag(v: &[f64]) -> Dense {
+        let d = v.len();
+        let mut m = Dense::identity(d);
+        for i in 0..d {
+            m.a[i * d + i] = v[i];
+        }
+        m
+    }
+    pub fn at(&self, i: usize, j: usize) -> f64 {
+        self.a[i * self.d + j]
+    }
+    pub fn mul_vec(&self, x: &[f64]) -> Vec<f64> {
+        (0..self.d)
+            .map(|i| (0..self.d).map(|j| self.at(i, j) * x[j]).sum())
+            .collect()
+    }
+    pub fn tmul_vec(&self, x: &[f64]) -> Vec<f64> {
+        (0..self.d)
+            .map(|j| (0..self.d).map(|i| self.at(i, j) * x[i]).sum())
+            .collect()
+    }
+    pub fn mul(&self, o: &Dense) -> Dense {
+        let d = self.d;
+        let mut a = vec![0.0; d * d];
+        for i in 0..d {
+            for k in 0..d {
+                let v = self.at(i, k);
+                for j in 0..d {
+                    a[i * d + j] += v * o.at(k, j);
+                }
+            }
+        }
+        Dense { d, a }
+    }
+    pub fn transpose(&self) -> Dense {
+        let d = self.d;
+        let mut a = vec![0.0; d * d];
+        for i in 0..d {
+            for j in 0..d {
+                a[j * d + i] = self.at(i, j);
+            }
+        }
+        Dense { d, a }
+    }
+    /// LU with partial pivoting: returns (solution of A x = b, ln|det A|)
+    pub fn solve(&self, b: &[f64]) -> (Vec<f64>, f64) {
+        let d = self.d;
+        let mut a = self.a.clone();
+        let mut x = b.to_vec();
+        let mut logdet = 0.0;
+        for c in 0..d {
+            let mut piv = c;
+            for r in c + 1..d {
+                if a[r * d + c].abs() > a[piv * d + c].abs() {
+                    piv = r;
+                }
+            }
+            if piv != c {
+                for j in 0..d {
+                    a.swap(c * d + j, piv * d + j);
+                }
+                x.swap(c, piv);
+            }
+            let p = a[c * d + c];
+            logdet += p.abs().ln();
+            for r in c + 1..d {
+                let f = a[r * d + c] / p;
+                if f != 0.0 {
+                    for j in c..d {
+                        a[r * d + j] -= f * a[c * d + j];
+                    }
+                    x[r] -= f * x[c];
+                }
+            }
+        }
+        for c in (0..d).rev() {
+            let mut s = x[c];
+            for j in c + 1..d {
+                s -= a[c * d + j] * x[j];
+            }
+            x[c] = s / a[c * d + c];
+        }
+        (x, logdet)
+    }
+    pub fn logabsdet(&self) -> f64 {
+        self.solve(&vec![0.0; self.d]).1
+    }
+}
+
+/// determinant of a small general matrix (row-major n x n) by LU
+pub fn det(n: usize, m: &[f64]) -> f64 {
+    let mut a = m.to_vec();
+    let mut det = 1.0;
+    for c in 0..n {
+        let mut piv = c;
+        for r in c + 1..n {
+            if a[r * n + c].abs() > a[piv * n + c].abs() {
+                piv = r;
+            }
+        }
+        if a[piv * n + c] == 0.0 {
+            return 0.0;
+        }
+        if piv != c {
+            for j in 0..n {
+                a.swap(c * n + j, piv * n + j);
+            }
+            det = -det;
+        }
+        let p = a[c * n + c];
+        det *= p;
+        for r in c + 1..n {
+            let f = a[r * n + c] / p;
+            for j in c..n {
+                a[r * n + j] -= f * a[c * n + j];
+            }
+        }
+    }
+    det
+}
+
+/// Textbook leapfrog in the original space for H = -logp(x) + 1/2 p' Minv p.
+/// `grad` returns the gradient of logp at x.
+pub fn leapfrog_x(
+    minv: &Dense,
+    x: &[f64],
+    p: &[f64],
+    eps: f64,
+    grad: &mut dyn FnMut(&[f64]) -> Vec<f64>,
+) -> (Vec<f64>, Vec<f64>) {
+    let d = x.len();
+    let g0 = grad(x);
+    let ph: Vec<f64> = (0..d).map(|i| p[i] + 0.5 * eps * g0[i]).collect();
+    let v = minv.mul_vec(&ph);
+    let x1: Vec<f64> = (0..d).map(|i| x[i] + eps * v[i]).collect();
+    let g1 = grad(&x1);
+    let p1: Vec<f64> = (0..d).map(|i| ph[i] + 0.5 * eps * g1[i]).collect();
+    (x1, p1)
 }
